@@ -103,8 +103,10 @@ def sanitize_variable_name(
         return name
 
     # Compute recognisable basename
+    # (not `\w`: that also matches characters, such as U+0BF0, that Python does
+    # not accept inside identifiers)
     base_name = "".join(
-        [char if re.match(r"\w", char) else "_" for char in normalized_name]
+        [char if ("_" + char).isidentifier() else "_" for char in normalized_name]
     )
     if not base_name or base_name[0].isdigit() or keyword.iskeyword(base_name):
         base_name = "_" + base_name
